@@ -92,6 +92,20 @@ def register(m):
     m("C04", "b4-vector-dimension-one-condition-ok", VECS, INFER,
       "                if not (CoordinateSystem.is_angle_component(coordinate_system.coord_system_type, idx) or\n"
       "                        is_any_dimension(q.scale_factor)):\n", "SILENT")
+    VFM, SFM = "symplyphysics/core/fields/vector_field.py", "symplyphysics/core/fields/scalar_field.py"
+    m("C13", "b4-stored-vector-field-returned-unsubstituted", VFM,
+      "            components = _subs_with_point(self._point_function, self._coordinate_system, point_)\n            return Vector(components, self._coordinate_system)\n",
+      "            return Vector(self._point_function, self._coordinate_system)\n", "J8", note="the genuine defect repaired in 17ef1fb")
+    m("C13", "b4-stored-scalar-field-returned-unsubstituted", SFM,
+      "            return _subs_with_point(self._point_function, self._coordinate_system, point_)\n", "            return self._point_function\n", "J8")
+    m("C13", "b4-stored-vector-field-inline-subs-ok", VFM,
+      "            components = _subs_with_point(self._point_function, self._coordinate_system, point_)\n",
+      "            scalars = self._coordinate_system.coord_system.base_scalars()\n            mapping = {s: point_.coordinate(i) for i, s in enumerate(scalars)}\n"
+      "            components = [c.subs(mapping, simultaneous=True) for c in self._point_function]\n", "SILENT")
+    m("C13", "b4-stored-vector-field-sequential-subs", VFM,
+      "            components = _subs_with_point(self._point_function, self._coordinate_system, point_)\n",
+      "            components = list(self._point_function)\n            for i, s in enumerate(self._coordinate_system.coord_system.base_scalars()):\n"
+      "                components = [c.subs(s, point_.coordinate(i)) for c in components]\n", "J8")
     # C09 N1: factories hand out fresh systems
     m("C09", "b2-transform-returns-argument", CSYS,
       ") -> CoordinateSystem:\n    new_coord_system = from_system.coord_system.create_new(",
